@@ -170,6 +170,8 @@ def gen_graph(rng, stream):
         add_unsetup_lines(rng, g)
     if stream == "cf" and not lonely and rng.random() < 0.18:
         add_top_unsetup_lines(rng, g)
+    if rng.random() < 0.12:
+        add_tag_named_version(rng, g)
     return g
 
 
@@ -208,6 +210,38 @@ def add_unsetup_lines(rng, g):
         x = rng.choice(withdeps) if withdeps and rng.random() < 0.7 else rng.choice(below)
         lines.insert(rng.randint(i + 1, len(lines)), {"k": "unsetup", "optional": rng.random() < 0.5, "name": x,
                                                        "flags": ["-j"] if rng.random() < 0.65 else []})
+
+
+TAGNAMES = ["current", "beta"]      # recognised tags of the harness's startup file (common.mkstacks: extra_tags=("beta",))
+
+
+def add_tag_named_version(rng, g):
+    """A declared version whose NAME is a recognised tag name, while the tag of that name is assigned to another version of
+    the product: Eups.findSetupVersion must report the version recorded in SETUP_<PRODUCT> (it asks whether a version of
+    that name is declared before it takes the name for a tag).  cf stream: the tag-named version is the build version, every
+    line for the product names it explicitly; arb stream: some version is renamed and the lines that named it follow."""
+    vers = {}
+    for n, v, _ in g["decl"]:
+        vers.setdefault(n, []).append(v)
+    cf = g["stream"] == "cf"
+    cands = [n for n in g["names"][1:] if len(vers[n]) >= 2]
+    if not cands:
+        return
+    m = rng.choice(cands)
+    old = g["build"][m] if cf else rng.choice(vers[m])
+    tname = rng.choice(TAGNAMES)
+    other = rng.choice([v for v in vers[m] if v != old])
+    for d in g["decl"]:
+        if d[0] == m and d[1] == old:
+            d[1] = tname
+        for l in d[2]:
+            if l["k"] == "setup" and l["name"] == m and (cf or (l.get("spec") or {}).get("v") == old):
+                l["spec"] = {"v": tname}
+    if cf:
+        g["build"][m] = tname
+    if cf or m in g["tags"]:
+        g["tags"][m] = other if (tname == "current" or rng.random() < 0.5 or g["tags"].get(m) == old) else g["tags"][m]
+    g["tag_named"] = {"product": m, "name": tname, "tagged": other}
 
 
 def level0(lines, lo=0):
@@ -432,10 +466,10 @@ def write_product(stack, n, v, text):
         f.write(VERSION_FILE % {"n": n, "v": v})
 
 
-def write_current(stack, n, v):
+def write_current(stack, n, v, tag="current"):
     os.makedirs(os.path.join(stack, "ups_db", n), exist_ok=True)
-    with open(os.path.join(stack, "ups_db", n, "current.chain"), "w") as f:
-        f.write(CHAIN_FILE % {"n": n, "v": v})
+    with open(os.path.join(stack, "ups_db", n, tag + ".chain"), "w") as f:
+        f.write((CHAIN_FILE % {"n": n, "v": v}).replace("CHAIN = current", "CHAIN = " + tag))
 
 
 def drop_caches(userdata):
@@ -523,6 +557,9 @@ def install(stack, userdata, case):
         write_product(stack, n, v, expanded_form(case, n, v) if (n, v) in exp else table_text(lines, fn))
     for n, v in case["tags"].items():
         write_current(stack, n, v)
+    tn = case.get("tag_named")
+    if tn and tn["name"] != "current":
+        write_current(stack, tn["product"], tn["tagged"], tag=tn["name"])
 
 
 def evolve(stack, userdata, case):
